@@ -1025,3 +1025,52 @@ fn test_edges_2() {
 
     tape.assert("[0] 2^4", (1, 0), (1, 0));
 }
+
+/**************************************/
+
+// Verification hooks (compiled only with `--cfg bb_verif`): build a
+// tape from explicit parts and read the parts back.
+
+#[cfg(bb_verif)]
+impl<B: Block> Tape<B> {
+    pub fn verif_from_parts(
+        scan: Color,
+        lspan: &[(Color, Count)],
+        rspan: &[(Color, Count)],
+    ) -> Self {
+        Self {
+            scan,
+            lspan: Span(
+                lspan.iter().map(|&(c, n)| Block::new(c, n)).collect(),
+            ),
+            rspan: Span(
+                rspan.iter().map(|&(c, n)| Block::new(c, n)).collect(),
+            ),
+        }
+    }
+
+    #[expect(clippy::type_complexity)]
+    pub fn verif_parts(
+        &self,
+    ) -> (Color, Vec<(Color, Count)>, Vec<(Color, Count)>) {
+        let parts = |span: &Span<B>| {
+            span.0
+                .iter()
+                .map(|b| (b.get_color(), b.get_count()))
+                .collect()
+        };
+
+        (self.scan, parts(&self.lspan), parts(&self.rspan))
+    }
+}
+
+#[cfg(bb_verif)]
+impl HeadTape {
+    pub const fn verif_from_parts(head: Pos, tape: BasicTape) -> Self {
+        Self { head, tape }
+    }
+
+    pub const fn verif_parts(&self) -> (Pos, &BasicTape) {
+        (self.head, &self.tape)
+    }
+}
